@@ -72,13 +72,27 @@ fn decorate(e: Envelope, src: &mut Src, ctx: &mut Ctx) -> Envelope {
                 }
                 5 => {
                     let k = &pool.enc[src.below(pool.enc.len())];
-                    let sealed = bc_components::SealedMessage::new(case_key().to_cbor_data(), &k.public);
+                    // a proper content key inside - or, for every other envelope (by its digest, no draw), something
+                    // that opens with the recipient's key but is no content key at all: anyone who knows the public
+                    // key can make such a sealed message
+                    let plaintext = match e.digest().data()[0] % 4 {
+                        0 => b"not a content key".to_vec(),
+                        1 => vec![],
+                        _ => case_key().to_cbor_data(),
+                    };
+                    let sealed = bc_components::SealedMessage::new(plaintext, &k.public);
                     Envelope::new(sealed)
                 }
                 6 => {
                     let spec = SSKRSpec::new(1, vec![SSKRGroupSpec::new(1, 2).unwrap()]).unwrap();
                     let shares = bc_components::sskr_generate(&spec, &bc_components::SSKRSecret::new(case_key().data()).unwrap()).unwrap();
-                    Envelope::new(shares[0][src.below(2)].clone())
+                    let pick = src.below(2);
+                    if e.digest().data()[1] % 4 == 0 {
+                        // a share object of the right type, truncated
+                        Envelope::new(bc_components::SSKRShare::from_data(shares[0][pick].data()[..(e.digest().data()[2] % 6) as usize].to_vec()))
+                    } else {
+                        Envelope::new(shares[0][pick].clone())
+                    }
                 }
                 1 => bridge::known(*src.pick(&[200u64, 201, 1, 7])),
                 50 => Envelope::new("payload").wrap_envelope().add_assertion(known_values::VENDOR, "com.example").add_optional_assertion(known_values::CONFORMS_TO, if src.bool() { Some("v1") } else { None }),
